@@ -13,6 +13,10 @@ func init() {
 	modules["links"] = func(kind string, o *Opts) engine.Adapter {
 		return &fsad.LinkAdapter{Cfg: fsad.LinkConfig{AdapterName: "links=" + kind, Kind: kind, PropHelper: o.attr("helper", "C08"), PropErr: o.attr("err", "C05")}}
 	}
+	// MountAdd.tla: concurrent AddMount forced through the hook points of mount.FS.addMount
+	modules["mountadd"] = func(kind string, o *Opts) engine.Adapter {
+		return &fsad.MountAddAdapter{AdapterName: "mountadd", Prop: o.attr("mount", "C06")}
+	}
 	commands["link-kinds"] = func([]string) {
 		for _, k := range fsad.LinkKinds() {
 			fmt.Println(k)
